@@ -35,6 +35,7 @@ func genC12(t *rapid.T, tier string) C12Case {
 		Keys:       []string{core.KLK, core.KLK, core.KLK, core.KInt, core.KString, core.KStruct, core.KStruct, core.KUint64, core.KBytes},
 		Marshalers: []string{"json"},
 		BigOneIn:   40,
+		NoReversed: true, // the fault-injecting comparator of this check wraps the default order
 	})}
 	pool := len(c.Cfg.Pool())
 	c.Base = append(core.GenFillCfg(t, c.Cfg, pool), core.GenProgram(t, pairBaseWeights, 15, 1)...)
